@@ -19,7 +19,7 @@ func init() {
 	Register("C19", &Info{
 		Run:   runC19,
 		Quick: 6000, Thor: 1000000,
-		Rule: "a world = a history of 2-6 connections over one ClientSessionCache (capacity 16, or exactly the 2-3 entries the two server names need; link latency 0-250 ms so that clocks tick inside a handshake): one fingerprint (session_ticket / pre_shared_key parrots, HelloGolang, any parrot by stratum; optionally a different fingerprint per connection, Roller style), one server (repository or std) at TLS 1.2 or 1.3 with stable ticket keys, optionally forcing HelloRetryRequest, two server names; faults between/inside connections: connection aborted at a drawn byte offset of the server's flight (only the cache and the server's ticket keys survive), client+server clock jump (hours to weeks, past the 7-day ticket lifetime), server ticket-key rotation, a flipped stored byte in the cached session's secret (that connection may fail, the next one may not); connections optionally call BuildHandshakeState explicitly (and SetClientRandom, or reduce Hello.CipherSuites to one TLS 1.3 suite so that a session made under one suite meets a server selecting another) before Handshake; oracle: (R1) every connection without an injected abort completes and echoes - a failed resumption attempt degrades to a full handshake; (R2) after a success to the same name with the same fingerprint, no rotation, clock advance < 6 days and the needed extension in the spec, the next connection resumes on both sides; (R4) a name with no earlier success is never offered a ticket or PSK; (R5) when a PSK is still offered in the second ClientHello after a HelloRetryRequest, that hello differs from the first only in key_share, cookie, padding and the PSK binder (same identity, same binder length) and pre_shared_key stays last; pre_shared_key last and hello well-formed (strict grammar); non-trivial = a later connection offered a ticket/PSK; distinct = (fingerprints, server, fault plan, names)",
+		Rule: "a world = a history of 2-6 connections over one ClientSessionCache (capacity 16, or exactly the 2-3 entries the two server names need; link latency 0-250 ms so that clocks tick inside a handshake): one fingerprint (session_ticket / pre_shared_key parrots, HelloGolang, any parrot by stratum; optionally a different fingerprint per connection, Roller style, among them a hand-written TLS 1.2 spec with session_ticket but without extended_master_secret), one server (repository or std) at TLS 1.2 or 1.3 with stable ticket keys, optionally forcing HelloRetryRequest, two server names; faults between/inside connections: connection aborted at a drawn byte offset of the server's flight (only the cache and the server's ticket keys survive), client+server clock jump (hours to weeks, past the 7-day ticket lifetime), server ticket-key rotation, a flipped stored byte in the cached session's secret (that connection may fail, the next one may not); connections optionally call BuildHandshakeState explicitly (and SetClientRandom, or reduce Hello.CipherSuites to one TLS 1.3 suite so that a session made under one suite meets a server selecting another) before Handshake; oracle: (R1) every connection without an injected abort completes and echoes - a failed resumption attempt degrades to a full handshake; (R2) after a success to the same name with the same fingerprint, no rotation, clock advance < 6 days and the needed extension in the spec, the next connection resumes on both sides; (R4) a name with no earlier success is never offered a ticket or PSK; (R5) when a PSK is still offered in the second ClientHello after a HelloRetryRequest, that hello differs from the first only in key_share, cookie, padding and the PSK binder (same identity, same binder length) and pre_shared_key stays last; pre_shared_key last and hello well-formed (strict grammar); non-trivial = a later connection offered a ticket/PSK; distinct = (fingerprints, server, fault plan, names)",
 		Assumptions: []string{"ticket lifetime boundary: resumption is required only when < 6 days passed since the oldest full handshake the cached session may descend from (since the last key rotation or failed resumption); no claim is made between 6 and 8 days",
 			"the TLS 1.3 NewSessionTicket is processed because every connection reads its echoed application data"},
 		Real: []string{"utls client and lruSessionCache from /repo", "utls or std server (real ticket sealing)"},
@@ -27,9 +27,27 @@ func init() {
 	})
 }
 
+const customNoEMS = "Custom12NoEMS"
+
+// noEMSSpec: a TLS 1.2 hello with session_ticket and without extended_master_secret.
+func noEMSSpec() *tls.ClientHelloSpec {
+	return &tls.ClientHelloSpec{
+		CipherSuites:       []uint16{tls.TLS_ECDHE_ECDSA_WITH_AES_128_GCM_SHA256, tls.TLS_ECDHE_RSA_WITH_AES_128_GCM_SHA256, tls.TLS_ECDHE_ECDSA_WITH_CHACHA20_POLY1305, tls.TLS_ECDHE_RSA_WITH_CHACHA20_POLY1305, tls.TLS_ECDHE_RSA_WITH_AES_128_CBC_SHA},
+		CompressionMethods: []byte{0},
+		TLSVersMin:         tls.VersionTLS10, TLSVersMax: tls.VersionTLS12,
+		Extensions: []tls.TLSExtension{&tls.SNIExtension{}, &tls.RenegotiationInfoExtension{Renegotiation: tls.RenegotiateOnceAsClient},
+			&tls.SupportedCurvesExtension{Curves: []tls.CurveID{tls.X25519, tls.CurveP256, tls.CurveP384}}, &tls.SupportedPointsExtension{SupportedPoints: []byte{0}},
+			&tls.SessionTicketExtension{},
+			&tls.SignatureAlgorithmsExtension{SupportedSignatureAlgorithms: []tls.SignatureScheme{tls.ECDSAWithP256AndSHA256, tls.PSSWithSHA256, tls.PKCS1WithSHA256, tls.PKCS1WithSHA1}}},
+	}
+}
+
 func specHas(id tls.ClientHelloID, what string) bool {
 	if id == tls.HelloGolang {
 		return true
+	}
+	if id == tls.HelloCustom {
+		return what == "ticket" // the only custom spec of this scenario: noEMSSpec
 	}
 	s, err := tls.UTLSIdToSpec(id)
 	if err != nil {
@@ -60,6 +78,10 @@ func runC19(c *Ctx) {
 		{"Chrome_100_PSK", tls.HelloChrome_100_PSK}, {"Chrome_114_Padding_PSK_Shuf", tls.HelloChrome_114_Padding_PSK_Shuf}, {"Chrome_115_PQ_PSK", tls.HelloChrome_115_PQ_PSK},
 		{"Firefox_120", tls.HelloFirefox_120}, {"Firefox_65", tls.HelloFirefox_65}, {"Safari_16_0", tls.HelloSafari_16_0}, {"IOS_14", tls.HelloIOS_14}, {"Edge_85", tls.HelloEdge_85}}
 	pick := func() IDInfo {
+		if ch.Bool(8, "custom-no-ems") {
+			// a hand-written TLS 1.2 spec with session_ticket but without extended_master_secret
+			return IDInfo{customNoEMS, tls.HelloCustom}
+		}
 		if ch.Bool(75, "resumer") {
 			return resumers[ch.Pick(len(resumers), "id")]
 		}
@@ -165,7 +187,11 @@ func runC19(c *Ctx) {
 		plan = append(plan, fmt.Sprintf("%s/%s/abort=%d/jump=%v/rot=%v/corrupt=%v/prebuild=%d", s.id.Name, s.name, s.abortAt, s.jump, s.rotate, corrupted, s.prebuild))
 		cfg := &tls.Config{ServerName: s.name, RootCAs: Roots(), ClientSessionCache: cache, OmitEmptyPsk: true, Time: now}
 		abortAt := s.abortAt
-		sp := &ConnSpec{Name: fmt.Sprintf("c%d", i), ID: s.id.ID, CCfg: cfg, Peer: peer, SCfg: scfg, StdCfg: stdcfg, Payload: [][]byte{[]byte("ping-pong")},
+		var cspec *tls.ClientHelloSpec
+		if s.id.Name == customNoEMS {
+			cspec = noEMSSpec()
+		}
+		sp := &ConnSpec{Name: fmt.Sprintf("c%d", i), ID: s.id.ID, Spec: cspec, CCfg: cfg, Peer: peer, SCfg: scfg, StdCfg: stdcfg, Payload: [][]byte{[]byte("ping-pong")},
 			Setup: func(l *simnet.Link) {
 				l.Frag = ch.Bool(25, "frag")
 				l.AB.Latency, l.BA.Latency = latency, latency
